@@ -10,6 +10,35 @@ COMMON_NOTE = ("Trusted base: pyvc engine (AST transform T1-T3 of the real sourc
                "lift to C), A3 (integer powers), A4 (path forking via z3), A5 (numpy shim contracts, listed per run in evidence.trusted_base). ")
 
 CLAIMED = {
+    "C43": dict(
+        category="proof",
+        text=("apply_pdf executed with the PDF as an uninterpreted function xf(pid,x,Q2), an enumerated set of missing flavours, a ghost EKO with fully "
+              "symbolic (14,2,14,2) operators and errors on a 2-point symbolic grid: the result equals the contraction O[a,j,b,k] xf/x, with and without "
+              "the rotation to the QCD / unified evolution basis (label order included) and with a symbolic re-interpolation matrix standing for "
+              "get_interpolation (C34 contract); errors likewise, absent when the operator has none."),
+        note=COMMON_NOTE + "EKO replaced by a ghost map (C37); interpolation dispatcher by its contract (C34); einsum shape-uniformity.",
+        technique="contract-based deductive verification: symbolic execution with uninterpreted PDF + exact normal form",
+        design_ref="DESIGN.md section 2, C43",
+    ),
+    "C44": dict(
+        category="proof",
+        text=("ekos_product executed on ghost EKOs holding fully symbolic (2,2,2,2) operators and errors (non-commuting by construction): every new target equals "
+              "dot4(op_fin, op_ini[match]) with the solver's error rule, existing targets are untouched, the match is looked up at the squared initial scale "
+              "of the second EKO, in-place and new-archive variants agree, no match raises ValueError. One defect (reversed product, signed errors) was "
+              "repaired by a fix commit."),
+        note=COMMON_NOTE + "EKO / approx replaced by their contracts (C37).",
+        technique="contract-based deductive verification: symbolic execution + exact normal form with abs atoms",
+        design_ref="DESIGN.md section 2, C44",
+    ),
+    "C46": dict(
+        category="proof",
+        text=("project() executed on symbolic block data (with missing pids): equals sum e_i (e_i.d)/(e_i.e_i); for the PID and evolution tables (several "
+              "subsets, complete sets) and for symbolic custom combinations made orthogonal by a Gram-Schmidt parametrisation: components kept, idempotent, "
+              "complement removed, complete sets reproduce the data; input blocks unmodified."),
+        note=COMMON_NOTE + "Custom combinations dimension-bounded (4 non-zero components, 2-3 vectors); subsets of labels are a chosen family, the algebraic argument is symbolic in the data.",
+        technique="contract-based deductive verification: symbolic execution + exact normal form",
+        design_ref="DESIGN.md section 2, C46",
+    ),
     "C01": dict(
         category="proof",
         text=("Operator.compute is executed with q2_from and q2_to the same symbolic scale for every (order 1-4 x 0-2, nf 3-6, scale-variation "
